@@ -199,3 +199,56 @@ Example C19_monitor_nonvacuous :
    end) = (false, [EvMerge 0; EvMerge 2]) /\
   pa_run 2 [0]%nat [([None; None], true); ([None; Some 0], true)] = None.
 Proof. repeat split; vm_compute; reflexivity. Qed.
+
+(* ====================================================================== *)
+(* heavy hitters (theories/HH.v, MergingHH.v): from here on truth, mass, n_records are HH.v's *)
+(* ====================================================================== *)
+From Sketchnu Require Import HH HHProofs MergingHH MergingHHProofs.
+
+(* any outcomes, any schedule: n_records counts the Ok items only; hh[k] never exceeds the count of
+   k over what took effect (which is at least its count over the successful items), and keeps
+   C04's per-row guarantee 2f - (row mass) with respect to what took effect *)
+Theorem C19_hh_others_intact : forall (width depth max_key_len : nat) (bucket : nat -> key -> nat) (default_thr : Z -> Z),
+  (forall r k, (bucket r k < width)%nat) -> (max_key_len <= 255)%nat ->
+  forall (outs : list (outcome cms_item)) (sched : list (list nat)),
+  sched <> [] /\ Permutation (concat sched) (seq 0 (length outs)) ->
+  Forall (fun o => 0 <= recs cms_item o) outs -> zsum (map (recs cms_item) outs) < 2^64 ->
+  Forall hh_item_wf (eff_items outs) ->
+  exists s, hh_pa width depth max_key_len bucket outs sched = Some s /\
+    n_records s = zsum (map (recs cms_item) (filter (is_ok cms_item) outs)) /\
+    forall k, let x := ident max_key_len k in
+      truth max_key_len (hh_seq_hist (ok_items outs)) x <= truth max_key_len (hh_seq_hist (eff_items outs)) x /\
+      hh_get depth max_key_len bucket s k <= truth max_key_len (hh_seq_hist (eff_items outs)) x /\
+      forall r, (r < depth)%nat ->
+        mass max_key_len bucket (hh_seq_hist (eff_items outs)) r (bucket r x) < 2^32 ->
+        0 < 2 * truth max_key_len (hh_seq_hist (eff_items outs)) x
+            - mass max_key_len bucket (hh_seq_hist (eff_items outs)) r (bucket r x) ->
+        hh_get depth max_key_len bucket s k >=
+        2 * truth max_key_len (hh_seq_hist (eff_items outs)) x
+        - mass max_key_len bucket (hh_seq_hist (eff_items outs)) r (bucket r x).
+Proof. exact C19_hh_thm. Qed.
+Print Assumptions C19_hh_others_intact.
+
+(* the result is eval of the HH merge tree over the histories of what took effect *)
+Theorem C19_hh_result_is_history : forall (width depth max_key_len : nat) (bucket : nat -> key -> nat) (default_thr : Z -> Z)
+    (outs : list (outcome cms_item)) (sched : list (list nat)),
+  sched <> [] /\ Permutation (concat sched) (seq 0 (length outs)) ->
+  Forall (fun o => 0 <= recs cms_item o) outs -> zsum (map (recs cms_item) outs) < 2^64 ->
+  exists T, pm hist HMerge (map (hh_worker_hist (eff_items outs)) sched) = Some T /\
+            hh_pa width depth max_key_len bucket outs sched =
+              Some (hh_with_records (eval width depth max_key_len bucket default_thr T) (zsum (map (recs cms_item) outs))).
+Proof. exact hh_pa_spec. Qed.
+Print Assumptions C19_hh_result_is_history.
+
+(* the fault pattern of ex_outs on three workers, width 1: key a keeps 3 of the 10 that took effect *)
+Example C19_hh_nonvacuous :
+  let b := fun (_ : nat) (_ : key) => O in
+  (forall r k, (b r k < 1)%nat) /\ Forall hh_item_wf (eff_items ex_outs) /\
+  option_map (fun s => (n_added s, n_records s, map (hh_get 2 4 b s) [[97]; [98]; [99]]))
+             (hh_pa 1 2 4 b ex_outs ex_sched) = Some (10, 7, [0; 0; 4]) /\
+  map (truth 4 (hh_seq_hist (eff_items ex_outs))) [[97]; [98]; [99]] = [3; 3; 4] /\
+  map (truth 4 (hh_seq_hist (ok_items ex_outs))) [[97]; [98]; [99]] = [3; 1; 4].
+Proof.
+  cbv zeta. split; [intros; constructor|]. split; [repeat constructor; cbn; try discriminate; reflexivity|].
+  repeat split; vm_compute; reflexivity.
+Qed.
